@@ -41,6 +41,8 @@ struct verif_in {
 	uint32_t conf_block_size;
 	int conf_hash_size;
 	int by_name, by_uuid, skip_disk_access;
+	/* diff verdict */
+	int parity_invalid;
 };
 VERIF_DECLARE_IN
 
@@ -99,6 +101,12 @@ static struct snapraid_disk DISK_BY_NAME, DISK_BY_UUID;
 static struct snapraid_disk *find_disk_by_name(struct snapraid_state *state, const char *name) { (void)state; (void)name; return IN.by_name ? &DISK_BY_NAME : 0; }
 static struct snapraid_disk *find_disk_by_uuid(struct snapraid_state *state, const char *uuid) { (void)state; (void)uuid; return IN.by_uuid ? &DISK_BY_UUID : 0; }
 
+static int v_parity_is_invalid(struct snapraid_state *state) { (void)state; return IN.parity_invalid != 0; }
+static void v_list_foreach(tommy_list *list, tommy_foreach_func *func) { (void)list; (void)func; }
+static void v_fscheck(struct snapraid_state *state, const char *ope) { (void)state; (void)ope; }
+static void v_msg(const char *format, ...) { (void)format; }
+static void v_flush(void) { }
+
 /* ---------------------------------------------------------------- the REAL code: cmdline/scan.c whole (for struct snapraid_scan), then the regions */
 /* inside the included text the callees named below are routed to the stubs above (same in cbmc and native mode) */
 #define exit verif_exit
@@ -113,6 +121,19 @@ static struct snapraid_disk *find_disk_by_uuid(struct snapraid_state *state, con
 #include "region_state_z.c"
 #include "region_state_y.c"
 #include "region_state_m.c"
+#define parity_is_invalid v_parity_is_invalid
+#define tommy_list_foreach v_list_foreach
+#define state_fscheck v_fscheck
+#define msg_status v_msg
+#define msg_verbose v_msg
+#define log_flush v_flush
+#include "region_diff_verdict.c"
+#undef parity_is_invalid
+#undef tommy_list_foreach
+#undef state_fscheck
+#undef msg_status
+#undef msg_verbose
+#undef log_flush
 #undef exit
 #undef parity_used_size
 #undef parity_create
@@ -257,6 +278,48 @@ void h_state_m(void)
 	VERIF_ASSERT(!g_refusal_due, "a disk recorded in the content file but missing from the configuration is refused");
 	VERIF_ASSERT(disk == (IN.by_name ? &DISK_BY_NAME : &DISK_BY_UUID), "a recorded disk is matched by name first, by UUID (a rename) otherwise");
 	VERIF_ASSERT(ST.need_write == (IN.by_name ? 0 : 1), "a rename detected by UUID is saved");
+	VERIF_CANARY();
+}
+
+
+/* ---------------------------------------------------------------- the verdict of diff (C11) */
+void h_diff_verdict(void)
+{
+	static struct snapraid_disk D0, D1, D2;
+	static struct snapraid_scan S0, S1, S2;
+	struct snapraid_disk *const D[ND] = { &D0, &D1, &D2 };
+	struct snapraid_scan *const S[ND] = { &S0, &S1, &S2 };
+	tommy_list scanlist;
+	int d, r, changed = 0;
+	VERIF_INPUTS();
+	VERIF_ASSUME(IN.ndisk >= 1 && IN.ndisk <= ND);
+	tommy_list_init(&ST.disklist);
+	tommy_list_init(&scanlist);
+	for (d = 0; d < ND; ++d)
+		if (d < IN.ndisk) {
+			/* counters are numbers of files of one disk: far below 2^30 */
+			VERIF_ASSUME(IN.c_equal[d] < (1u << 30) && IN.c_move[d] < (1u << 30) && IN.c_restore[d] < (1u << 30) && IN.c_change[d] < (1u << 30)
+				&& IN.c_remove[d] < (1u << 30) && IN.c_insert[d] < (1u << 30) && IN.c_copy[d] < (1u << 30));
+			S[d]->state = &ST;
+			S[d]->disk = D[d];
+			S[d]->count_equal = IN.c_equal[d];
+			S[d]->count_move = IN.c_move[d];
+			S[d]->count_restore = IN.c_restore[d];
+			S[d]->count_change = IN.c_change[d];
+			S[d]->count_remove = IN.c_remove[d];
+			S[d]->count_insert = IN.c_insert[d];
+			S[d]->count_copy = IN.c_copy[d];
+			tommy_list_insert_tail(&ST.disklist, &D[d]->node, D[d]);
+			tommy_list_insert_tail(&scanlist, &S[d]->node, S[d]);
+			if (IN.c_move[d] || IN.c_restore[d] || IN.c_change[d] || IN.c_remove[d] || IN.c_insert[d] || IN.c_copy[d])
+				changed = 1;
+		}
+	g_refusal_due = 0;
+	r = region_diff_verdict(&ST, scanlist, IN.is_diff);
+	if (IN.is_diff)
+		VERIF_ASSERT(r == (changed || IN.parity_invalid != 0), "diff reports a difference exactly when some disk has an added, removed, updated, moved, copied or restored entry, or a previous sync was incomplete");
+	else
+		VERIF_ASSERT(r == 0, "the scan of sync returns normally");
 	VERIF_CANARY();
 }
 
